@@ -15,7 +15,7 @@ for cf in sys.argv[1:]:
         c = json.loads(line)
         d = c["dir"]
         parts = d.rstrip("/").split("/")
-        rnd = "r2-" if "/seed2/" in d else ("r3-" if "/seed3/" in d else ("r4-" if "/seed4/" in d else ("r5-" if "/seed5/" in d else ("r6-" if "/seed6/" in d else ""))))
+        rnd = "r2-" if "/seed2/" in d else ("r3-" if "/seed3/" in d else ("r4-" if "/seed4/" in d else ("r5-" if "/seed5/" in d else ("r6-" if "/seed6/" in d else ("r7-" if "/seed7/" in d else "")))))
         sid = f"{parts[-2]}-{rnd}{parts[-1]}"
         if not c.get("ok"):
             print("NOT CONFIRMED, skipped:", d, {k: v for k, v in c.items() if k not in ("dir", "demo_patched_tail")})
